@@ -35,6 +35,7 @@ package redisemu
 //@ define otherlists
 //@ ensures [C03] others.kept: forall l *storeList :: asref(l) < old(alloc()) && l != list ==> l.count == old(l.count) && l.head == old(l.head) && l.tail == old(l.tail) && l.seq == old(l.seq)
 //@ ensures [C03] others.items: forall r *listItem :: asref(r) < old(alloc()) && old(r.owner) != list ==> r.idx == old(r.idx) && r.owner == old(r.owner) && r.next == old(r.next) && r.prev == old(r.prev) && r.element == old(r.element)
+//@ ensures [C03] elements.kept: forall r *listItem :: asref(r) < old(alloc()) ==> r.element == old(r.element)
 //@ end
 
 //@ define listhelper
@@ -158,3 +159,29 @@ package redisemu
 //@ ensures [C03] inserted: list.seq[old(pivotItem.idx)+1].element == element && list.seq[old(pivotItem.idx)] == pivotItem
 //@ ensures [C03] before: all(i, 0, old(pivotItem.idx)+1, list.seq[i] == old(list.seq[i]))
 //@ ensures [C03] after: all(i, old(pivotItem.idx)+1, old(list.count), list.seq[i+1] == old(list.seq[i]))
+
+// LSET / LINSERT helpers: the node at a position (nil outside the list); reads only
+//@ func dataStoreCommand.findListItem
+//@ prop C08 C16 C03
+//@ guards on
+//@ safetyprop C13
+//@ mode int
+//@ requires dscOK(dsc)
+//@ requires [C08,C16] locked: held
+//@ requires [C03] wf: list != nil && listWF(list)
+//@ pure
+//@ loop 1 invariant [C03] fwd: 0 <= pos && pos <= count && (item != nil ==> pos < list.count && item == list.seq[pos]) && (item == nil ==> pos == list.count) && foundItem == nil
+//@ loop 2 invariant [C03] bwd: count <= pos && pos <= list.count - 1 && (item != nil ==> 0 <= pos && item == list.seq[pos]) && (item == nil ==> pos == -1) && foundItem == nil
+//@ ensures [C03] found: 0 <= count && count < list.count ==> foundItem == list.seq[count]
+//@ ensures [C03] none: (count < 0 || count >= list.count) ==> foundItem == nil
+
+// LPOP / RPOP handler: a negative count is refused before the store method sizes anything by it
+//@ func popWorker
+//@ prop C03
+//@ safetyprop C13
+//@ callback fn
+//@ requires arg1 >= 0
+//@ modifies *
+//@ endcallback
+//@ modifies *
+//@ ensures [C03,C13] negative.refused: old(istype(args["count"], int64) && unbox(args["count"], int64) < 0) ==> istype(output.data, respErrorString)
